@@ -344,6 +344,13 @@ static int drv_stats(int argc, char** argv) {
       for (const auto& kv : hist.get("init", Json::Value(Json::objectValue)).getMemberNames()) {
         st->set(kv, hist["init"][kv].asInt());
       }
+      // many counters: the `g` reply is far larger than the socket buffer, so the server has to send it in pieces
+      int bulk = hist.get("bulk_keys", 0).asInt();
+      for (int i = 0; i < bulk; ++i) {
+        char kb[32];
+        snprintf(kb, sizeof kb, "bulk.%06d", i);
+        st->set(kb, i % 7);
+      }
       std::vector<std::thread> ths;
       int nth = hist["threads"].size();
       std::atomic<int> ready{0};
@@ -399,6 +406,71 @@ static int drv_stats(int argc, char** argv) {
                 }
                 if (beh == "close_early" || beh == "rst") {
                   ::close(fd);
+                  rec["reply"] = Json::Value();
+                } else if (beh == "slow") {
+                  // a live but slow reader: fixed-size reads with pauses well below the server's send timeout
+                  std::string rep;
+                  size_t chunk = op.get("chunk", 65536).asUInt();
+                  int pause_ms = op.get("pause_ms", 20).asInt();
+                  int pauses = op.get("pauses", 1000000).asInt();
+                  std::vector<char> cb(chunk);
+                  bool timeout = false;
+                  long max_gap_ms = 0;
+                  auto last_read = std::chrono::steady_clock::now();
+                  while (true) {
+                    pollfd pp{fd, POLLIN, 0};
+                    if (::poll(&pp, 1, 20000) <= 0) {
+                      timeout = true;
+                      break;
+                    }
+                    auto nowr = std::chrono::steady_clock::now();
+                    long gap = std::chrono::duration_cast<std::chrono::milliseconds>(nowr - last_read).count();
+                    max_gap_ms = std::max(max_gap_ms, gap);
+                    last_read = nowr;
+                    ssize_t n = ::read(fd, cb.data(), cb.size());
+                    if (n <= 0) {
+                      break;
+                    }
+                    rep.append(cb.data(), n);
+                    if (pauses-- > 0) {
+                      usleep(pause_ms * 1000);
+                    }
+                  }
+                  ::close(fd);
+                  // the reply is too big to carry along: judge its shape here, report the verdict data
+                  Json::Value parsed;
+                  Json::CharReaderBuilder rb;
+                  std::string errs;
+                  std::istringstream is(rep);
+                  bool ok = Json::parseFromStream(rb, is, &parsed, &errs);
+                  Json::Value b;
+                  b["len"] = (Json::UInt64)rep.size();
+                  b["timeout"] = timeout;
+                  b["max_gap_ms"] = (Json::Int64)max_gap_ms;
+                  b["json"] = ok;
+                  if (ok && parsed.isObject()) {
+                    b["error"] = parsed["error"];
+                    const Json::Value& body = parsed["body"];
+                    b["body_is_object"] = body.isObject();
+                    int nb = 0, bad = 0;
+                    if (body.isObject()) {
+                      for (const auto& k : body.getMemberNames()) {
+                        if (k.rfind("bulk.", 0) == 0) {
+                          nb++;
+                          int idx = atoi(k.c_str() + 5);
+                          if (!body[k].isInt() || body[k].asInt() != idx % 7) {
+                            bad++;
+                          }
+                        }
+                      }
+                      b["other_keys"] = (Json::UInt64)(body.size() - nb);
+                    }
+                    b["bulk_keys"] = nb;
+                    b["bulk_bad"] = bad;
+                  } else {
+                    b["tail"] = rep.substr(rep.size() > 80 ? rep.size() - 80 : 0);
+                  }
+                  rec["bulk"] = b;
                   rec["reply"] = Json::Value();
                 } else if (beh == "stall") {
                   // send nothing more and do not read for longer than the server's 2 s timeout
